@@ -634,12 +634,17 @@ package main
 //@   note abstract view of the immutable operator table binOpMap (content checked by the binOpMap scan)
 
 //@ func parseTerm
-//@   trusted
-//@   modifies glob:wg
+//@   props C08 C06
+//@   param pExpr: like parseExprWithPrec(_, #1, $0)
+//@   param pBlock: like parseBlock(_, $0)
+//@   modifies maps glob:wg glob:vardefs
+//@   requires live: live(ps)
+//@   requires offside-stack-non-empty: len(ps.offsideCol) >= 1
 //@   panics may
 //@   ensures grouped: old(glob(wg)) ==> glob(wg)
-//@   ensures live: live(ps) ==> live(result.E0) && samebuf(result.E0, ps)
-//@   note abstract: one operand (atom, application, parenthesised expression, not ...): rank 100.  It builds no binary node itself (scan: newBinOpCall is called only from parseBinAfter); sub-expressions go through pExpr, i.e. parseExprWithPrec, whose contract preserves wg
+//@   ensures live: live(result.E0) && samebuf(result.E0, ps)
+//@   ensures kept: result.E0.scope == ps.scope && sameoff(result.E0.offsideCol, ps.offsideCol)
+//@   note one operand (atom, application, parenthesised expression, not, match, if, fun, slice): rank 100.  It builds no binary node itself (scan: newBinOpCall is called only from parseBinAfter); sub-expressions go through pExpr / pBlock, i.e. through the contracts of parseExprWithPrec / parseBlock
 
 //@ func psTypeVarGen
 //@   trusted
@@ -647,9 +652,11 @@ package main
 
 //@ func parseBinAfter
 //@   props C08 C06
-//@   modifies glob:wg
+//@   modifies maps glob:wg glob:vardefs
 //@   requires live: live(ps)
+//@   requires offside-stack-non-empty: len(ps.offsideCol) >= 1
 //@   ensures live: live(result.E0) && samebuf(result.E0, ps)
+//@   ensures kept: result.E0.scope == ps.scope && sameoff(result.E0.offsideCol, ps.offsideCol)
 //@   ghost-in rpc int            -- rank of cur
 //@   ghost rp int                -- rank of the expression returned
 //@   param pEwithMinPrec: like parseExprWithPrec(_, $0, $1)
@@ -670,9 +677,12 @@ package main
 
 //@ func parseExprWithPrec
 //@   props C08 C06
-//@   modifies glob:wg
+//@   param pBlock: like parseBlock(_, $0)
+//@   modifies maps glob:wg glob:vardefs
 //@   requires live: live(ps)
+//@   requires offside-stack-non-empty: len(ps.offsideCol) >= 1
 //@   ensures live: live(result.E0) && samebuf(result.E0, ps)
+//@   ensures kept: result.E0.scope == ps.scope && sameoff(result.E0.offsideCol, ps.offsideCol)
 //@   ghost rp int
 //@   ghost T2 ParseState         -- the state right after the leading term
 //@   ensures C08 C06 line-breaks-after-an-expression-are-not-consumed: !isbinop(skipeol(T2).tkz.current.ttype) ==> result.E0 == T2
@@ -688,9 +698,12 @@ package main
 
 //@ func parseExpr
 //@   props C08 C06
-//@   modifies glob:wg
+//@   param pBlock: like parseBlock(_, $0)
+//@   modifies maps glob:wg glob:vardefs
 //@   requires live: live(ps)
+//@   requires offside-stack-non-empty: len(ps.offsideCol) >= 1
 //@   ensures live: live(result.E0) && samebuf(result.E0, ps)
+//@   ensures kept: result.E0.scope == ps.scope && sameoff(result.E0.offsideCol, ps.offsideCol)
 //@   panics may
 //@   ensures grouped: old(glob(wg)) ==> glob(wg)
 //@   ensures stop: stop(result.E0, 1)
@@ -1164,15 +1177,13 @@ package main
 
 //@ func parseURules
 //@   props C09
-//@   modifies maps
+//@   param pBlock: like parseBlock(_, $0)
+//@   modifies maps glob:wg glob:vardefs
 //@   ghost P ParseState          -- the state after the union arms
 //@   ghost US []UnionMatchRule   -- the arms
 //@   ghost TT FType              -- the type of the matched expression
 //@   requires live: live(ps)
 //@   requires offside-stack-non-empty: len(ps.offsideCol) >= 1
-//@   requires block-parser-keeps-the-token-stream: forall p ParseState :: {pBlock(p)} live(p) ==> live(pBlock(p).E0) && samebuf(pBlock(p).E0, p)
-//@   requires block-parser-keeps-the-offside-stack: forall p ParseState :: {pBlock(p)} sameoff(pBlock(p).E0.offsideCol, p.offsideCol)
-//@   requires block-parser-keeps-the-scope: forall p ParseState :: {pBlock(p)} pBlock(p).E0.scope == p.scope
 //@   panics may
 //@   ensures default-only-inside-offside: is(UnionMatchRules_UCaseWD, result.E1) ==> len(P.offsideCol) > 0 && P.tkz.col >= P.offsideCol[len(P.offsideCol) - 1] && is_default_mr(P)
 //@   ensures no-default-means-checked: is(UnionMatchRules_UCaseOnly, result.E1) && is(FType_FUnion, TT) ==> has_uniinfo(FType_FUnion_Value(TT)) && !(exists i int :: 0 <= i && i < len(uniinfo(FType_FUnion_Value(TT)).Cases) && (forall j int :: 0 <= j && j < len(US) ==> US[j].UnionPattern.CaseId != uniinfo(FType_FUnion_Value(TT)).Cases[i].Name))
@@ -1180,6 +1191,9 @@ package main
 //@   at after call frt.Destr2#0: P = ret
 //@   at after call ExprToType#0: TT = ret
 //@   at before call exaustiveCheck#0: US = $1
+//@   ensures grouped: old(glob(wg)) ==> glob(wg)
+//@   ensures kept: result.E0.scope == ps.scope && sameoff(result.E0.offsideCol, ps.offsideCol)
+//@   ensures live: live(result.E0) && samebuf(result.E0, ps)
 
 // C03: partial application - a closure over the missing parameters: supplied arguments first (in source
 // order), then _r0.._rk in order; closure parameters typed by the missing parameter types; the callee is
@@ -1596,30 +1610,43 @@ package main
 
 //@ func parseStringMatchRule
 //@   props C06
-//@   modifies maps
+//@   param pBlock: like parseBlock(_, $0)
+//@   modifies maps glob:wg glob:vardefs
 //@   requires live: live(ps)
 //@   panics may
 //@   ensures body-parsed-once: calls(pBlock) == old(calls(pBlock)) + 1
 //@   ensures body-starts-after-line-breaks: arg(pBlock, old(calls(pBlock))).tkz.current.ttype != New_TokenType_EOL
+//@   ensures grouped: old(glob(wg)) ==> glob(wg)
+//@   ensures kept: result.E0.scope == ps.scope && sameoff(result.E0.offsideCol, ps.offsideCol)
+//@   ensures live: live(result.E0) && samebuf(result.E0, ps)
 
 //@ func parseStringVarRule
 //@   props C06 C07
-//@   modifies maps glob:vardefs
+//@   param pBlock: like parseBlock(_, $0)
+//@   modifies maps glob:vardefs glob:wg
+//@   ghost LB int                -- the definition log right before the body is parsed
 //@   requires live: live(ps)
-//@   requires block-parser-keeps-the-scope: forall p ParseState :: {pBlock(p)} pBlock(p).E0.scope == p.scope
 //@   panics may
-//@   ensures C07 variable-in-a-child-scope: exists sc Scope :: {scparent(sc)} scparent(sc) == ps.scope && sc != ps.scope && glob(vardefs) == def_var(old(glob(vardefs)), sc, result.E1.VarName, mk_main_Var(result.E1.VarName, New_FType_FString)) && arg(pBlock, old(calls(pBlock))).scope == sc
+//@   ensures C07 variable-in-a-child-scope: exists sc Scope :: {scparent(sc)} scparent(sc) == ps.scope && sc != ps.scope && LB == def_var(old(glob(vardefs)), sc, result.E1.VarName, mk_main_Var(result.E1.VarName, New_FType_FString)) && arg(pBlock, old(calls(pBlock))).scope == sc
 //@   ensures C07 scope-restored: result.E0.scope == ps.scope
 //@   ensures body-parsed-once: calls(pBlock) == old(calls(pBlock)) + 1
 //@   ensures body-starts-after-line-breaks: arg(pBlock, old(calls(pBlock))).tkz.current.ttype != New_TokenType_EOL
+//@   ensures grouped: old(glob(wg)) ==> glob(wg)
+//@   ensures kept: result.E0.scope == ps.scope && sameoff(result.E0.offsideCol, ps.offsideCol)
+//@   ensures live: live(result.E0) && samebuf(result.E0, ps)
+//@   at before call pBlock#0: LB = glob(vardefs)
 
 //@ func parseDefaultMatchRule
 //@   props C06 C09
-//@   modifies maps
+//@   param pBlock: like parseBlock(_, $0)
+//@   modifies maps glob:wg glob:vardefs
 //@   requires live: live(ps)
 //@   panics may
 //@   ensures body-parsed-once: calls(pBlock) == old(calls(pBlock)) + 1
 //@   ensures body-starts-after-line-breaks: arg(pBlock, old(calls(pBlock))).tkz.current.ttype != New_TokenType_EOL
+//@   ensures grouped: old(glob(wg)) ==> glob(wg)
+//@   ensures kept: result.E0.scope == ps.scope && sameoff(result.E0.offsideCol, ps.offsideCol)
+//@   ensures live: live(result.E0) && samebuf(result.E0, ps)
 
 //@ func lookupCase
 //@   trusted
@@ -1628,21 +1655,22 @@ package main
 
 //@ func parseUnionMatchRule
 //@   props C06 C09 C07
-//@   modifies maps glob:vardefs
+//@   param pBlock: like parseBlock(_, $0)
+//@   modifies maps glob:vardefs glob:wg
+//@   ghost LB int                -- the definition log right before the body is parsed
 //@   requires live: live(ps)
-//@   requires block-parser-keeps-the-scope: forall p ParseState :: {pBlock(p)} pBlock(p).E0.scope == p.scope
 //@   ensures C07 body-in-a-child-scope: scparent(arg(pBlock, old(calls(pBlock))).scope) == ps.scope && arg(pBlock, old(calls(pBlock))).scope != ps.scope
-//@   ensures C07 payload-variable-only-in-the-child-scope: (result.E1.UnionPattern.VarName == "" || result.E1.UnionPattern.VarName == "_") ==> glob(vardefs) == old(glob(vardefs))
-//@   ensures C07 payload-variable-in-the-child-scope: result.E1.UnionPattern.VarName != "" && result.E1.UnionPattern.VarName != "_" ==> exists v Var :: {def_var(old(glob(vardefs)), arg(pBlock, old(calls(pBlock))).scope, result.E1.UnionPattern.VarName, v)} v.Name == result.E1.UnionPattern.VarName && glob(vardefs) == def_var(old(glob(vardefs)), arg(pBlock, old(calls(pBlock))).scope, result.E1.UnionPattern.VarName, v)
+//@   ensures C07 payload-variable-only-in-the-child-scope: (result.E1.UnionPattern.VarName == "" || result.E1.UnionPattern.VarName == "_") ==> LB == old(glob(vardefs))
+//@   ensures C07 payload-variable-in-the-child-scope: result.E1.UnionPattern.VarName != "" && result.E1.UnionPattern.VarName != "_" ==> exists v Var :: {def_var(old(glob(vardefs)), arg(pBlock, old(calls(pBlock))).scope, result.E1.UnionPattern.VarName, v)} v.Name == result.E1.UnionPattern.VarName && LB == def_var(old(glob(vardefs)), arg(pBlock, old(calls(pBlock))).scope, result.E1.UnionPattern.VarName, v)
 //@   ensures C07 scope-restored: result.E0.scope == ps.scope
-//@   requires block-parser-keeps-the-token-stream: forall p ParseState :: {pBlock(p)} live(p) ==> live(pBlock(p).E0) && samebuf(pBlock(p).E0, p)
-//@   requires block-parser-keeps-the-offside-stack: forall p ParseState :: {pBlock(p)} sameoff(pBlock(p).E0.offsideCol, p.offsideCol)
 //@   panics may
 //@   ensures live: live(result.E0) && samebuf(result.E0, ps)
 //@   ensures offside-stack-kept: sameoff(result.E0.offsideCol, ps.offsideCol)
 //@   ensures C09 binding-arm-needs-a-union-target: result.E1.UnionPattern.VarName != "" && result.E1.UnionPattern.VarName != "_" ==> is(FType_FUnion, exprtype(target))
 //@   ensures body-parsed-once: calls(pBlock) == old(calls(pBlock)) + 1
 //@   ensures body-starts-after-line-breaks: arg(pBlock, old(calls(pBlock))).tkz.current.ttype != New_TokenType_EOL
+//@   ensures grouped: old(glob(wg)) ==> glob(wg)
+//@   at before call pBlock#0: LB = glob(vardefs)
 
 //@ func parseParams
 //@   trusted
@@ -1654,12 +1682,15 @@ package main
 //@   note abstract: the parameter list of a let / fun (defines the parameters in the current scope)
 
 //@ func parseBlock
-//@   trusted
-//@   modifies maps glob:vardefs
+//@   props C06 C08 C09
+//@   modifies maps glob:vardefs glob:wg
+//@   requires live: live(ps)
+//@   requires let-parser-keeps: forall p ParseState :: {pLet(p)} live(p) ==> live(pLet(p).E0) && samebuf(pLet(p).E0, p) && sameoff(pLet(p).E0.offsideCol, p.offsideCol) && pLet(p).E0.scope == p.scope
 //@   panics may
-//@   ensures live: live(ps) ==> live(result.E0) && samebuf(result.E0, ps)
-//@   ensures scope-kept: result.E0.scope == ps.scope
-//@   note abstract: a block of statements (its offside discipline is the subject of the primitives' contracts)
+//@   ensures kept: live(result.E0) && samebuf(result.E0, ps) && result.E0.scope == ps.scope && sameoff(result.E0.offsideCol, ps.offsideCol)
+//@   ensures block-ends-left-of-its-column-or-at-the-end: result.E0.tkz.col < ps.tkz.col || result.E0.tkz.current.ttype == New_TokenType_EOF || result.E0.tkz.current.ttype == New_TokenType_RPAREN
+//@   ensures grouped: old(glob(wg)) ==> glob(wg)
+//@   note the statements go through the function-typed parameter pLet (a plain callback: its effects on the logs are not modelled) and through parseExpr (by contract)
 
 //@ func blockToExpr
 //@   trusted
@@ -1671,6 +1702,7 @@ package main
 //@   ghost P ParseState          -- the state at which the body block is parsed
 //@   ghost L int                 -- the definition log right after the parameters
 //@   requires live: live(ps)
+//@   requires let-parser-keeps: forall p ParseState :: {pLet(p)} live(p) ==> live(pLet(p).E0) && samebuf(pLet(p).E0, p) && sameoff(pLet(p).E0.offsideCol, p.offsideCol) && pLet(p).E0.scope == p.scope
 //@   panics may
 //@   ensures body-starts-after-line-breaks: P.tkz.current.ttype != New_TokenType_EOL
 //@   ensures C07 parameters-and-body-in-a-child-scope: scparent(P.scope) == ps.scope && P.scope != ps.scope && L == params_log(old(glob(vardefs)), P.scope, result.E1.Params)
@@ -1691,35 +1723,38 @@ package main
 // if ... then / else on several lines: every block body is parsed from a token that is not an end-of-line
 //@ func parseIfAfterIfExpr
 //@   props C06
-//@   modifies maps
+//@   param pExpr: like parseExprWithPrec(_, #1, $0)
+//@   param pBlock: like parseBlock(_, $0)
+//@   modifies maps glob:wg glob:vardefs
 //@   requires live: live(ps)
-//@   requires sub-parsers-keep-the-token-stream: forall p ParseState :: {pExpr(p)} live(p) ==> live(pExpr(p).E0) && samebuf(pExpr(p).E0, p)
-//@   requires block-parser-keeps-the-token-stream: forall p ParseState :: {pBlock(p)} live(p) ==> live(pBlock(p).E0) && samebuf(pBlock(p).E0, p)
+//@   requires offside-stack-non-empty: len(ps.offsideCol) >= 1
 //@   panics may
 //@   ensures blocks-start-after-line-breaks: forall j int :: old(calls(pBlock)) <= j && j < calls(pBlock) ==> arg(pBlock, j).tkz.current.ttype != New_TokenType_EOL
 //@   ensures live: live(result.E0) && samebuf(result.E0, ps)
+//@   ensures grouped: old(glob(wg)) ==> glob(wg)
+//@   ensures kept: result.E0.scope == ps.scope && sameoff(result.E0.offsideCol, ps.offsideCol)
 
 // the arms of a union match: the list goes on exactly while the next token (after line breaks) is a `|` that
 // lies inside the enclosing offside line and does not start the default arm - tested on the state reached,
 // not on the state the match started in
 //@ func parseUnionMatchRules
 //@   props C06 C09
-//@   modifies maps glob:vardefs
+//@   param pBlock: like parseBlock(_, $0)
+//@   modifies maps glob:vardefs glob:wg
 //@   requires live: live(ps)
-//@   requires block-parser-keeps-the-scope: forall p ParseState :: {pBlock(p)} pBlock(p).E0.scope == p.scope
 //@   requires offside-stack-non-empty: len(ps.offsideCol) >= 1
-//@   requires block-parser-keeps-the-token-stream: forall p ParseState :: {pBlock(p)} live(p) ==> live(pBlock(p).E0) && samebuf(pBlock(p).E0, p)
-//@   requires block-parser-keeps-the-offside-stack: forall p ParseState :: {pBlock(p)} sameoff(pBlock(p).E0.offsideCol, p.offsideCol)
 //@   panics may
 //@   ensures arms-end-at-the-offside-line: !(result.E0.tkz.col >= result.E0.offsideCol[len(result.E0.offsideCol) - 1] && result.E0.tkz.current.ttype == New_TokenType_BAR && !is_default_mr(result.E0))
 //@   ensures at-least-one-arm: len(result.E1) >= 1
-//@   ensures offside-stack-kept: sameoff(result.E0.offsideCol, ps.offsideCol)
+//@   ensures offside-stack-kept: sameoff(result.E0.offsideCol, ps.offsideCol) && result.E0.scope == ps.scope
 //@   ensures live: live(result.E0) && samebuf(result.E0, ps)
 //@   inline-call ParseList2
 //@   loop ParseList2/0:
+//@     invariant grouped: old(glob(wg)) ==> glob(wg)
 //@     invariant live: live(ps) && samebuf(ps, old(ps))
-//@     invariant offside: sameoff(ps.offsideCol, old(ps).offsideCol)
+//@     invariant offside: sameoff(ps.offsideCol, old(ps).offsideCol) && ps.scope == old(ps).scope
 //@     invariant arms: len(res) >= 1
+//@   ensures grouped: old(glob(wg)) ==> glob(wg)
 
 // ---------------------------------------------------------------------------------------------
 // C03, parser half of record definitions: the field list of the definition is exactly the fields written,
@@ -1843,13 +1878,17 @@ package main
 
 //@ func parseFunExpr
 //@   props C07
-//@   modifies maps glob:vardefs
+//@   param pBlock: like parseBlock(_, $0)
+//@   modifies maps glob:vardefs glob:wg
+//@   ghost LB int                -- the definition log right before the body is parsed
 //@   requires live: live(ps)
-//@   requires block-parser-keeps-the-token-stream: forall p ParseState :: {pBlock(p)} live(p) ==> live(pBlock(p).E0) && samebuf(pBlock(p).E0, p)
-//@   requires block-parser-keeps-the-scope: forall p ParseState :: {pBlock(p)} pBlock(p).E0.scope == p.scope
 //@   panics may
-//@   ensures parameters-in-a-child-scope: exists sc Scope :: {scparent(sc)} scparent(sc) == ps.scope && sc != ps.scope && glob(vardefs) == params_log(old(glob(vardefs)), sc, Expr_ELambda_Value(result.E1).Params) && arg(pBlock, old(calls(pBlock))).scope == sc
+//@   ensures parameters-in-a-child-scope: exists sc Scope :: {scparent(sc)} scparent(sc) == ps.scope && sc != ps.scope && LB == params_log(old(glob(vardefs)), sc, Expr_ELambda_Value(result.E1).Params) && arg(pBlock, old(calls(pBlock))).scope == sc
 //@   ensures scope-restored: result.E0.scope == ps.scope
+//@   ensures grouped: old(glob(wg)) ==> glob(wg)
+//@   ensures kept: result.E0.scope == ps.scope && sameoff(result.E0.offsideCol, ps.offsideCol)
+//@   ensures live: live(result.E0) && samebuf(result.E0, ps)
+//@   at before call pBlock#0: LB = glob(vardefs)
 
 // entering a type definition group resets the allocator of forward-declaration placeholders (and nothing
 // else: the per-let type-variable allocator of the inference context is not touched), starts with empty
@@ -1882,24 +1921,33 @@ package main
 
 //@ func parseRecordGen
 //@   trusted
-//@   modifies maps
+//@   modifies maps glob:wg glob:vardefs
 //@   panics may
 //@   ensures live: live(ps) ==> live(result.E0) && samebuf(result.E0, ps)
+//@   ensures kept: live(ps) ==> result.E0.scope == ps.scope && sameoff(result.E0.offsideCol, ps.offsideCol)
+//@   ensures grouped: old(glob(wg)) ==> glob(wg)
 //@ func parseSliceExpr
 //@   trusted
-//@   modifies maps
+//@   modifies maps glob:wg glob:vardefs
 //@   panics may
 //@   ensures live: live(ps) ==> live(result.E0) && samebuf(result.E0, ps)
+//@   ensures kept: live(ps) ==> result.E0.scope == ps.scope && sameoff(result.E0.offsideCol, ps.offsideCol)
+//@   ensures grouped: old(glob(wg)) ==> glob(wg)
 //@ func parseUSPropAcc
 //@   trusted
-//@   modifies maps
+//@   modifies maps glob:wg glob:vardefs
 //@   panics may
 //@   ensures live: live(ps) ==> live(result.E0) && samebuf(result.E0, ps)
+//@   ensures kept: live(ps) ==> result.E0.scope == ps.scope && sameoff(result.E0.offsideCol, ps.offsideCol)
+//@   ensures grouped: old(glob(wg)) ==> glob(wg)
 //@ func parseGoEval
 //@   trusted
-//@   modifies maps
+//@   modifies maps glob:wg glob:vardefs
 //@   panics may
 //@   ensures live: live(ps) ==> live(result.E0) && samebuf(result.E0, ps)
+//@   ensures kept: live(ps) ==> result.E0.scope == ps.scope && sameoff(result.E0.offsideCol, ps.offsideCol)
+//@   ensures grouped: old(glob(wg)) ==> glob(wg)
+
 //@ func psIsNeighborLT
 //@   props C08
 //@   requires live: live(ps)
@@ -1915,32 +1963,46 @@ package main
 //@   panics may
 //@ func parseFAAfterDot
 //@   trusted
-//@   modifies maps
+//@   modifies maps glob:vardefs
 //@   panics may
 //@   ensures live: live(ps) ==> live(result.E0) && samebuf(result.E0, ps)
+//@   ensures kept: result.E0.scope == ps.scope && sameoff(result.E0.offsideCol, ps.offsideCol)
 
 // a reference: `<` opens a type-argument list only when it follows the identifier without a blank; a spaced
 // `<` is left to the operator parser (the reference ends right after the identifier)
 //@ func parseVarRef
 //@   props C08
-//@   modifies maps
+//@   modifies maps glob:wg glob:vardefs
 //@   requires live: live(ps)
 //@   panics may
 //@   ensures live: live(result.E0) && samebuf(result.E0, ps)
 //@   ensures spaced-lt-is-left-to-the-operator-parser: !(ps.tkz.current.begin + ps.tkz.current.len < len(ps.tkz.buf) && ps.tkz.buf[ps.tkz.current.begin + ps.tkz.current.len] == '<') && adv(ps).tkz.current.ttype != New_TokenType_DOT ==> result.E0 == adv(ps)
+//@   ensures kept: result.E0.scope == ps.scope && sameoff(result.E0.offsideCol, ps.offsideCol)
+//@   ensures grouped: old(glob(wg)) ==> glob(wg)
 
 //@ func parseAtom
 //@   props C08
-//@   modifies maps
+//@   param parseE: like parseExprWithPrec(_, #1, $0)
+//@   modifies maps glob:wg glob:vardefs
+//@   ghost P2 ParseState         -- the state after the expression inside the parentheses
+//@   ghost E1G Expr              -- that expression
 //@   requires live: live(ps)
-//@   requires sub-parser-keeps-the-token-stream: forall p ParseState :: {parseE(p)} live(p) ==> live(parseE(p).E0) && samebuf(parseE(p).E0, p) && parseE(p).E0.tkz.current.begin >= p.tkz.current.begin && (p.tkz.current.ttype != New_TokenType_EOF ==> parseE(p).E0.tkz.current.begin > p.tkz.current.begin)
+//@   requires offside-stack-non-empty: len(ps.offsideCol) >= 1
 //@   panics may
 //@   ensures string-literal: ps.tkz.current.ttype == New_TokenType_STRING ==> result.E0 == adv(ps) && result.E1 == Expr_EStringLiteral(ps.tkz.current.stringVal)
 //@   ensures int-literal: ps.tkz.current.ttype == New_TokenType_INT_IMM ==> result.E0 == adv(ps) && result.E1 == Expr_EIntImm(ps.tkz.current.intVal)
 //@   ensures bool-literals: (ps.tkz.current.ttype == New_TokenType_TRUE ==> result.E0 == adv(ps) && result.E1 == Expr_EBoolLiteral(true)) && (ps.tkz.current.ttype == New_TokenType_FALSE ==> result.E0 == adv(ps) && result.E1 == Expr_EBoolLiteral(false))
 //@   ensures unit: ps.tkz.current.ttype == New_TokenType_LPAREN && adv(ps).tkz.current.ttype == New_TokenType_RPAREN ==> result.E0 == adv(adv(ps)) && result.E1 == New_Expr_EUnit
 //@   ensures live: live(result.E0) && samebuf(result.E0, ps)
-//@   ensures parentheses-only-group: ps.tkz.current.ttype == New_TokenType_LPAREN && adv(ps).tkz.current.ttype != New_TokenType_RPAREN && parseE(adv(ps)).E0.tkz.current.ttype != New_TokenType_COMMA ==> result.E1 == parseE(adv(ps)).E1 && parseE(adv(ps)).E0.tkz.current.ttype == New_TokenType_RPAREN && result.E0 == adv(parseE(adv(ps)).E0)
+//@   ensures parentheses-only-group: ps.tkz.current.ttype == New_TokenType_LPAREN && adv(ps).tkz.current.ttype != New_TokenType_RPAREN && P2.tkz.current.ttype != New_TokenType_COMMA ==> result.E1 == E1G && P2.tkz.current.ttype == New_TokenType_RPAREN && result.E0 == adv(P2) && arg(parseE, old(calls(parseE))) == adv(ps)
+//@   ensures grouped: old(glob(wg)) ==> glob(wg)
+//@   ensures kept: result.E0.scope == ps.scope && sameoff(result.E0.offsideCol, ps.offsideCol)
+//@   at after call frt.Destr2#0: P2 = ret0
+//@   at after call frt.Destr2#0: E1G = ret1
+//@   inline-call ParseList2
+//@   loop ParseList2/0:
+//@     invariant kept: live(ps) && samebuf(ps, old(ps)) && ps.scope == old(ps).scope && sameoff(ps.offsideCol, old(ps).offsideCol)
+//@     invariant grouped: old(glob(wg)) ==> glob(wg)
 
 // ---------------------------------------------------------------------------------------------
 // C16: the list-parsing loops terminate because each step consumes input.  Stated once, on the generic
@@ -1986,12 +2048,15 @@ package main
 
 //@ func parseAtomList
 //@   props C08
-//@   modifies maps
+//@   param parseE: like parseExprWithPrec(_, #1, $0)
+//@   modifies maps glob:wg glob:vardefs
 //@   requires live: live(ps)
-//@   requires sub-parser-keeps-the-token-stream: forall p ParseState :: {parseE(p)} live(p) ==> live(parseE(p).E0) && samebuf(parseE(p).E0, p) && parseE(p).E0.tkz.current.begin >= p.tkz.current.begin && (p.tkz.current.ttype != New_TokenType_EOF ==> parseE(p).E0.tkz.current.begin > p.tkz.current.begin)
+//@   requires offside-stack-non-empty: len(ps.offsideCol) >= 1
 //@   panics may
 //@   ensures at-least-one: len(result.E1) >= 1
 //@   ensures live: live(result.E0) && samebuf(result.E0, ps)
+//@   ensures grouped: old(glob(wg)) ==> glob(wg)
+//@   ensures kept: result.E0.scope == ps.scope && sameoff(result.E0.offsideCol, ps.offsideCol)
 
 // a match: a default arm alone is rejected; a target whose type is a union is parsed by the union rules
 // (and so goes through the exhaustiveness routing of parseURules), never by the string rules
@@ -2007,36 +2072,42 @@ package main
 //@   panics may
 //@ func parseSRules
 //@   trusted
-//@   modifies maps glob:vardefs
+//@   modifies maps glob:wg glob:vardefs
 //@   panics may
+//@   ensures kept: live(ps) ==> live(result.E0) && samebuf(result.E0, ps) && result.E0.scope == ps.scope && sameoff(result.E0.offsideCol, ps.offsideCol)
+//@   ensures grouped: old(glob(wg)) ==> glob(wg)
 
 //@ func parseMatchRules
 //@   props C09
-//@   modifies maps glob:vardefs
+//@   param pBlock: like parseBlock(_, $0)
+//@   modifies maps glob:vardefs glob:wg
 //@   requires live: live(ps)
 //@   requires offside-stack-non-empty: len(ps.offsideCol) >= 1
-//@   requires block-parser-keeps-the-token-stream: forall p ParseState :: {pBlock(p)} live(p) ==> live(pBlock(p).E0) && samebuf(pBlock(p).E0, p)
-//@   requires block-parser-keeps-the-offside-stack: forall p ParseState :: {pBlock(p)} sameoff(pBlock(p).E0.offsideCol, p.offsideCol)
-//@   requires block-parser-keeps-the-scope: forall p ParseState :: {pBlock(p)} pBlock(p).E0.scope == p.scope
 //@   panics may
 //@   ensures default-arm-alone-is-rejected: !(ps.tkz.current.ttype == New_TokenType_BAR && adv(ps).tkz.current.ttype == New_TokenType_UNDER_SCORE)
 //@   ensures union-target-is-parsed-by-the-union-rules: is(FType_FUnion, exprtype(target)) ==> is(MatchRules_RUnions, result.E1)
+//@   ensures grouped: old(glob(wg)) ==> glob(wg)
+//@   ensures kept: result.E0.scope == ps.scope && sameoff(result.E0.offsideCol, ps.offsideCol)
+//@   ensures live: live(result.E0) && samebuf(result.E0, ps)
 
 //@ func parseMatchExpr
 //@   props C06 C09
-//@   modifies maps glob:vardefs
+//@   param pExpr: like parseExprWithPrec(_, #1, $0)
+//@   param pBlock: like parseBlock(_, $0)
+//@   modifies maps glob:vardefs glob:wg
 //@   ghost P ParseState          -- the state at which the rules are parsed
+//@   ghost TG Expr               -- the expression parsed after `match`
 //@   requires live: live(ps)
 //@   requires offside-stack-non-empty: len(ps.offsideCol) >= 1
-//@   requires expression-parser-keeps-the-token-stream: forall p ParseState :: {pExpr(p)} live(p) ==> live(pExpr(p).E0) && samebuf(pExpr(p).E0, p) && sameoff(pExpr(p).E0.offsideCol, p.offsideCol)
-//@   requires block-parser-keeps-the-token-stream: forall p ParseState :: {pBlock(p)} live(p) ==> live(pBlock(p).E0) && samebuf(pBlock(p).E0, p)
-//@   requires block-parser-keeps-the-offside-stack: forall p ParseState :: {pBlock(p)} sameoff(pBlock(p).E0.offsideCol, p.offsideCol)
-//@   requires block-parser-keeps-the-scope: forall p ParseState :: {pBlock(p)} pBlock(p).E0.scope == p.scope
 //@   panics may
 //@   ensures rules-start-after-line-breaks: P.tkz.current.ttype != New_TokenType_EOL
-//@   ensures target-is-the-expression-after-match: result.E1.Target == pExpr(adv(ps)).E1 && ps.tkz.current.ttype == New_TokenType_MATCH
+//@   ensures target-is-the-expression-after-match: result.E1.Target == TG && ps.tkz.current.ttype == New_TokenType_MATCH && arg(pExpr, old(calls(pExpr))) == adv(ps)
 //@   ensures C09 union-target-is-parsed-by-the-union-rules: is(FType_FUnion, exprtype(result.E1.Target)) ==> is(MatchRules_RUnions, result.E1.Rules)
 //@   at before call parseMatchRules#0: P = $2
+//@   ensures grouped: old(glob(wg)) ==> glob(wg)
+//@   ensures kept: result.E0.scope == ps.scope && sameoff(result.E0.offsideCol, ps.offsideCol)
+//@   ensures live: live(result.E0) && samebuf(result.E0, ps)
+//@   at after call frt.Destr2#0: TG = ret1
 
 // ---------------------------------------------------------------------------------------------
 // C03, package_info: a declaration `let name<T,..>: A->B->C` records under `name` the signature that was
@@ -2219,10 +2290,10 @@ package main
 
 //@ func parseStmtList
 //@   props C06
-//@   modifies maps
+//@   param pExpr: like parseExpr(_, $0)
+//@   modifies maps glob:wg glob:vardefs
 //@   requires live: live(ps)
 //@   requires offside-stack-non-empty: len(ps.offsideCol) >= 1
-//@   requires expression-parser-keeps: forall p ParseState :: {pExpr(p)} live(p) ==> live(pExpr(p).E0) && samebuf(pExpr(p).E0, p) && sameoff(pExpr(p).E0.offsideCol, p.offsideCol) && pExpr(p).E0.scope == p.scope
 //@   requires let-parser-keeps: forall p ParseState :: {pLet(p)} live(p) ==> live(pLet(p).E0) && samebuf(pLet(p).E0, p) && sameoff(pLet(p).E0.offsideCol, p.offsideCol) && pLet(p).E0.scope == p.scope
 //@   panics may
 //@   ensures block-ends-left-of-its-column-or-at-the-end: result.E0.tkz.col < result.E0.offsideCol[len(result.E0.offsideCol) - 1] || result.E0.tkz.current.ttype == New_TokenType_EOF || result.E0.tkz.current.ttype == New_TokenType_RPAREN
@@ -2231,15 +2302,17 @@ package main
 //@   ensures not-at-a-line-end: result.E0.tkz.current.ttype != New_TokenType_EOL
 //@   inline-call ParseList2#0
 //@   loop ParseList2#0/0:
+//@     invariant grouped: old(glob(wg)) ==> glob(wg)
 //@     invariant kept: live(ps) && samebuf(ps, old(ps)) && sameoff(ps.offsideCol, old(ps).offsideCol) && ps.scope == old(ps).scope
 //@     invariant some: len(res) >= 1
 //@     invariant not-eol: ps.tkz.current.ttype != New_TokenType_EOL
+//@   ensures grouped: old(glob(wg)) ==> glob(wg)
 
 //@ func parseBlockAfterPushScope
 //@   props C06
-//@   modifies maps
+//@   param pExpr: like parseExpr(_, $0)
+//@   modifies maps glob:wg glob:vardefs
 //@   requires live: live(ps)
-//@   requires expression-parser-keeps: forall p ParseState :: {pExpr(p)} live(p) ==> live(pExpr(p).E0) && samebuf(pExpr(p).E0, p) && sameoff(pExpr(p).E0.offsideCol, p.offsideCol) && pExpr(p).E0.scope == p.scope
 //@   requires let-parser-keeps: forall p ParseState :: {pLet(p)} live(p) ==> live(pLet(p).E0) && samebuf(pLet(p).E0, p) && sameoff(pLet(p).E0.offsideCol, p.offsideCol) && pLet(p).E0.scope == p.scope
 //@   panics may
 //@   ensures block-column-right-of-the-offside-line: len(ps.offsideCol) >= 1 && ps.offsideCol[len(ps.offsideCol) - 1] < ps.tkz.col
@@ -2247,6 +2320,7 @@ package main
 //@   ensures offside-stack-restored: len(result.E0.offsideCol) == len(ps.offsideCol) && (forall k int :: 0 <= k && k < len(ps.offsideCol) ==> result.E0.offsideCol[k] == ps.offsideCol[k])
 //@   ensures scope-popped: result.E0.scope == scparent(ps.scope)
 //@   ensures live: live(result.E0) && samebuf(result.E0, ps)
+//@   ensures grouped: old(glob(wg)) ==> glob(wg)
 
 // ---------------------------------------------------------------------------------------------
 // C09, emission of a union match: `switch [tmp := ](target).(type){` + one `case U_C:` per arm in source
